@@ -584,6 +584,58 @@ def c07_churn_classify(line, res):
                               "0" if h == 0 else "<1e5" if h < 100000 else "<1e7" if h < 10000000 else ">=1e7")
 
 
+
+# ---------------------------------------------------------------- round 4: the redis write path under load (C07 / C04 / C20)
+def redisload_gen(rng, tier):
+    """a real cacheCtl (redis backend = real RedisCache / rueidis against the in-process fake, with and without a memory
+    backend) stores self-describing answers from several goroutines while the fake delays some SET replies (the set loop
+    lags behind its queue), noise goroutines compute cache keys of other names and take pool buffers of the same size
+    classes, readers look questions up.  Wall time = sum of ms + ~1.5 s per case (redis ping loop, drain, final sweep)."""
+    out = []
+    for i in range(budget(tier, 2, 12)):
+        slow, slowms = rng.choice([(0, 0), (50, 5), (10, 2), (20, 20)]) if i > 0 else (50, 5)
+        out.append("rl%d mem=%d names=%d writers=%d readers=%d noise=%d ms=%d slow=%d slowms=%d seed=%d" % (
+            i, i % 2, rng.choice([50, 200, 1000]), rng.choice([1, 2, 4, 8]), rng.choice([1, 2, 4]), rng.choice([0, 2, 4, 8]),
+            budget(tier, 1200, 4000), slow, slowms, rng.randrange(1 << 30)))
+    return out
+
+
+def redisload_oracle(line, res):
+    r = gens.fields(res)
+    if "badsets" not in r:
+        return None
+    why = []
+    if r["badsets"] != "0":
+        why.append("%s of %s SET commands reached redis with a key / value pair that nobody stored (%s)" % (
+            r["badsets"], r.get("sets", "?"), r.get("badfirst", "?")[:160]))
+    if r.get("wrong", "0") != "0":
+        why.append("%s of %s cache hits served through cacheCtl.Get were not the asking question's own answer (%s)" % (
+            r["wrong"], r.get("gets", "?"), r.get("first", "?")[:200]))
+    return "; ".join(why) or None
+
+
+def redisload_classify(line, res):
+    f = gens.fields(line)
+    r = gens.fields(res)
+    n = int(r.get("sets", "0") or 0)
+    return "%s %s sets=%s" % ("memory+redis" if f["mem"] == "1" else "redis-only",
+                              "slow-server" if f["slow"] != "0" else "fast-server",
+                              "0" if n == 0 else "<1e3" if n < 1000 else ">=1e3")
+
+
+def redisload_kind():
+    return dict(name="redisload", gen=redisload_gen, oracle=redisload_oracle, classify=redisload_classify, model=False,
+                timeout=1800, nontrivial=lambda l, r: r.startswith("sets=") and not r.startswith("sets=0 "))
+
+
+REDISLOAD_RULE = ("; redisload: a real cacheCtl whose redis backend (real RedisCache / rueidis) talks to an in-process fake "
+                  "server stores self-describing answers from 1-8 goroutines for 1.2 s per case (4 s thorough) while the "
+                  "fake delays some SET replies, noise goroutines compute cache keys of other names and scribble pool "
+                  "buffers of the key's / value's size classes, readers look up; oracle at the fake: every SET it receives "
+                  "carries, octet for octet, the value that belongs to its key (computed beforehand through the real "
+                  "cacheKey / packCacheMsg); oracle at cacheCtl.Get (concurrently and for every question after the drain, "
+                  "memory copy dropped first): a hit is the asking question's own answer")
+
 def pressure_ok(ir, mr):
     return True
 
